@@ -442,8 +442,8 @@ func c10BuildCases(run *core.Run) []C10Case {
 		"image/svg+xml": {"<svg><path d=\"M1e1 2e-1L.5.5z\" style=\"a:'b\\\n\\\r\"/></svg>",
 			// constructs the minifier looks ahead from (empty containers, raw content, view boxes of every arity)
 			"<svg viewBox=\"0 0 100\"><defs/><defs></defs><g><defs><path d=\"M0 0\"/></defs></g><g></g><style>a{b:c}</style><![CDATA[x]]><text> a <tspan>b</tspan> </text><svg viewBox=\"100\"/><svg viewBox=\"0.0,0.0\"/><metadata><a/><b></b></metadata></svg>"},
-		"text/xml":               {"<a b=\"&#1\">&#x1;&am</a>"},
-		"application/json":       {"{\"a\":\"\\u00\",\"b\":1.5e-}"},
+		"text/xml":         {"<a b=\"&#1\">&#x1;&am</a>"},
+		"application/json": {"{\"a\":\"\\u00\",\"b\":1.5e-}"},
 	}
 	hostile["text/html"] = append(hostile["text/html"], "<p>x<svg viewBox=\"0 0 100\"><defs/><g><defs></defs></g><defs", "<ul><li>a<li>b</ul><table><tr><td>c<td>d</table><select><option>e<option>f</select><p>g<p>h")
 	for _, mt := range sixTypes {
